@@ -1015,7 +1015,7 @@ def gen_scripts(ctx: Ctx):
     scripts = boundary_scripts()
     for _ in range(ctx.n(250, 6000)):
         scripts.append(random_script(ctx.rng))
-    for _ in range(ctx.n(90, 3000)):
+    for _ in range(ctx.n(90, 1500)):
         scripts.append(soup_script(ctx.rng))
     return scripts
 
